@@ -89,6 +89,7 @@ def gen_cases(tier):
             cases.append({"sel": s, "voff": 3, "kcase": "upper", "ctx": "between-nosemi"})
             cases.append({"sel": s, "voff": 6, "kcase": "lower", "ctx": "between-nosemi"})
             cases.append({"sel": s, "voff": 5, "kcase": "upper", "ctx": "last-after-nosemi"})
+            cases.append({"sel": s, "voff": 6, "kcase": "upper", "ctx": "nosemi-then-semi"})
             cases.append({"sel": s, "voff": 5, "kcase": "mixed", "ctx": "noschema"})
             cases.append({"sel": s, "voff": 2, "kcase": "upper", "ctx": "twoseq"})
         elif len(s) == 3:
@@ -119,7 +120,10 @@ def build(case):
     st = (head + " " + (schema + "." if schema else "") + qname + " " + " ".join(parts)).rstrip() + ";"
     if case.get("lines"):
         st = st.replace(" ", "\n")
-    if case["ctx"] == "last-after-nosemi":
+    if case["ctx"] == "nosemi-then-semi":
+        # the sequence statement has no ';' and is ended by a complete one-line ';'-terminated statement
+        ddl = st.rstrip(";") + "\n" + TAB_AFTER
+    elif case["ctx"] == "last-after-nosemi":
         # the ';'-terminated sequence statement is the LAST line and follows a statement that has no ';'
         ddl = TAB_BEFORE.rstrip(";") + "\n" + st
     elif case["ctx"] == "between-nosemi":
@@ -167,6 +171,12 @@ def evaluate(case):
         if case["ctx"] in ("alone", "noschema"):
             if not same_seq(res, [exp]):
                 diffs.append(diff("sequence entity", "sequence-differs", exp, short(res)))
+        elif case["ctx"] == "nosemi-then-semi":
+            ref_a = run_ddl(TAB_AFTER)[1]
+            if len(res) != 2 or not same_seq([res[0]], [exp]):
+                diffs.append(diff("sequence entity (no ';', ended by a one-line statement)", "sequence-differs", exp, short(res[:1] or res)))
+            if len(res) == 2 and res[1] != ref_a[0]:
+                diffs.append(diff("neighbouring table", "neighbour-changed", short(ref_a[0]), short(res[1])))
         elif case["ctx"] == "last-after-nosemi":
             ref_b = run_ddl(TAB_BEFORE)[1]
             if len(res) != 2 or not same_seq([res[1]], [exp]):
